@@ -16,6 +16,8 @@ class RegConcCheck(PropCheck):
             # deterministic coverage of the first-registration window, for every kind of predecessor (C03: a
             # delivery that lands there - also on the registering thread itself - must still finish by itself)
             scenarios += rc.window_sweep(rng)
+        if self.profile == "chain":
+            scenarios += rc.fallback_overwrite_sweep(rng)
         results = rc.run_many(scenarios)
         # search for a failing input (DESIGN 4.1): when the step trace no longer matches the model but
         # the property monitor has not fired, re-run the disagreeing scenario shapes under many more
@@ -148,6 +150,27 @@ class C03(RegConcCheck):
         res["distribution"]["iterator_scenarios"] = ires["evaluations"]
         res["distribution"]["iterator_wakes_on_full_pipe"] = ires["distribution"].get("= -1", 0)
         res["rule"] += "; plus iterator scenarios (the instance's real action: slot store + self-pipe wake, half of them with the pipe filled to capacity) with the same per-step monitor and a would-block detector on every write/send"
+        # ... and with every owner of the instance dropped while a delivery is parked in the middle of its action:
+        # a delivery never releases what the action captured (no free, no close inside the handler)
+        class ItDrop(c09.IterCheck):
+            pid = "C03"
+            profile = "ownerdrop"
+            def correspond(self, tier, seed, rng):
+                from . import it as _it
+                n = 80 if tier == "quick" else 3000
+                rs = _it.run_many([_it.gen_scenario(rng, "ownerdrop") for _ in range(n)])
+                fl = []
+                for r in rs:
+                    pr = _it.monitors(r).get("C03", [])
+                    if pr:
+                        fl.append({"kind": "violation", "key": "C03:itdrop:" + core.digest(pr[0].split(":")[-1][:40]),
+                                   "what": "iterator schedule (%d steps): %s" % (len(r["schedule"]), pr[0]),
+                                   "payload": {"scenario": r["scenario"], "schedule": r["schedule"], "impl": r["impl"][-80:], "model": r["model"][-80:]}})
+                return {"failures": fl, "evaluations": len(rs)}
+        dres = ItDrop().correspond(tier, seed, rng)
+        res["failures"] += dres["failures"]
+        res["evaluations"] += dres["evaluations"]
+        res["distribution"]["iterator_owner_drop_scenarios"] = dres["evaluations"]
         # the info-carrying exfiltrators (one channel per signal, built lazily by `add_signal`): deliveries racing an
         # `add_signal` of their own signal, and the ordinary queueing scenarios, with the heap monitor
         from . import itq
